@@ -80,10 +80,13 @@ pub fn names(data: &[u8]) -> Option<crate::c16::Case> {
     }
     let ops = [Get, Touch, Set, Put, SetTemp, PutTemp, Ensure, GouAccept, GouPromote, GouReplace];
     let op = ops[data[0] as usize % ops.len()];
-    let mut fe = data[1] % 6;
+    let mut fe = data[1] % 7;
     let small = data[1] & 0x80 != 0;
     if (fe == 0 || fe == 1) && !op.is_plain_api() {
         fe = 2 + fe % 2;
+    }
+    if fe == 6 && !op.is_plain_api() {
+        fe = 3;
     }
     if fe == 5 && !matches!(op, Get | Touch) {
         fe = 4;
